@@ -439,7 +439,7 @@ pub fn run(ctx: &Ctx) {
     ctx.assume("samples fit the declared bit depth; options come from the documented ranges");
     let t = ctx.tier;
     let all = Roundtrip { name: "roundtrip", readers: &READERS };
-    ctx.regress(&all);
+    ctx.regress_named(&all, &["shortlen-grid", "roundtrip-large"]);
     ctx.regress(&Tiny);
 
     // (a) exhaustive tiny vectors
